@@ -335,7 +335,7 @@ package classifier
 //@   requires 0 <= doc1Start && doc1Start <= doc1End && doc1End <= cap(doc1.runes)
 //@   requires 0 <= doc2Start && doc2Start <= doc2End && doc2End <= cap(doc2.runes)
 //@   ensures fresh(result)
-//@   modifies elems(doc1.runes), elems(doc2.runes)
+//@   modifies nothing
 //@   props C10 C09
 //@
 //@ func isVersionNumber
@@ -354,7 +354,7 @@ package classifier
 //@   requires len(known.Tokens) <= cap(known.runes) && nsep(id, runeStr(47)) >= 1
 //@   ensures result1 >= 0 && result2 >= 0
 //@   ensures !isNaN(result0) && result0 <= 1.0
-//@   modifies elems(unknown.runes), elems(known.runes)
+//@   modifies nothing
 //@   props C10 C03 C02 C09
 //@
 // ---------------------------------------------------------------- classifier.go: names
